@@ -15,10 +15,15 @@
 (* must be TRUE; every range those facts were computed over is logged and recomputed here.           *)
 (*                                                                                                 *)
 (* inp = [start, ivtOff, ils, appLen, flags, cfgKind, cfgLen, entry, ver, nSrk, srcIdx, fast,        *)
-(*        imgTgt, vfyIdx, macLen, dekLen]                                                           *)
+(*        imgTgt, vfyIdx, macLen, dekLen, waive]                                                    *)
+(* inp.waive is empty when a trace is judged.  Only after a rejection whose finding key is listed as  *)
+(* KNOWN does the harness validate the same trace again with that one clause waived, so that a known  *)
+(* defect does not hide what comes after it (a further rejection is reported under its own key).      *)
 EXTENDS HabLayout
 
 F(inp, a) == LET o == Off(a, inp.start) IN IF o = BIG THEN BIG ELSE o - inp.ivtOff     \* address -> file offset (IVT = 0)
+
+Waived(inp, w) == \E i \in 1..Len(inp.waive) : inp.waive[i] = w
 
 S0 == [st |-> "Ivt", ivt |-> [x |-> 0], bd |-> [x |-> 0], fileLen |-> 0, cfg |-> {}, csf |-> [at |-> 0, len |-> 0],
        cur |-> 0, nCmds |-> 0, slots |-> {}, srkCa |-> FALSE, csfOk |-> FALSE, secrets |-> {}, signed |-> {}, macd |-> {},
@@ -50,7 +55,7 @@ DcdOK(inp, s, e) ==
 XmcdOK(inp, s, e) ==
   /\ s.st = "Cfg" /\ inp.cfgKind = "xmcd"
   /\ e.at = XmcdAt /\ e.tag = 12 /\ e.size = inp.cfgLen /\ e.at + e.size <= s.fileLen
-  /\ e.match
+  /\ (e.match \/ Waived(inp, "xmcdMatch"))                                   \* bytes at IVT + 0x40 = the XMCD given to the builder
 CfgNx(inp, s, e) == [s EXCEPT !.st = "App", !.cfg = {<<e.at, e.at + inp.cfgLen>>}]
 
 AppOK(inp, s, e) ==
@@ -106,12 +111,14 @@ ImgkOK(inp, s, e) ==
 ImgkNx(inp, s, e) == [Step(s, e, e.crtLen) EXCEPT !.slots = s.slots \cup {e.tgt}]
 
 BlockIv(inp, b) == <<F(inp, b.a), F(inp, b.a) + b.n>>
-Blocks(inp, e) == {BlockIv(inp, e.blocks[i]) : i \in 1..Len(e.blocks)}
+\* an empty block authenticates nothing (whether the ROM minds it is not asserted); the others must be distinct and disjoint
+NonEmpty(e) == {i \in 1..Len(e.blocks) : e.blocks[i].n > 0}
+Blocks(inp, e) == {BlockIv(inp, e.blocks[i]) : i \in NonEmpty(e)}
 BlocksOK(inp, s, e) ==
   /\ Len(e.blocks) >= 1
-  /\ \A i \in 1..Len(e.blocks) : e.blocks[i].n > 0 /\ F(inp, e.blocks[i].a) >= 0 - inp.ivtOff
+  /\ \A i \in 1..Len(e.blocks) : e.blocks[i].n >= 0 /\ F(inp, e.blocks[i].a) >= 0 - inp.ivtOff
                                  /\ F(inp, e.blocks[i].a) + e.blocks[i].n <= s.csf.at
-  /\ Cardinality(Blocks(inp, e)) = Len(e.blocks) /\ Disj(Blocks(inp, e))
+  /\ Cardinality(Blocks(inp, e)) = Cardinality(NonEmpty(e)) /\ Disj(Blocks(inp, e))
 RECURSIVE SumN(_, _)
 SumN(bs, i) == IF i > Len(bs) THEN 0 ELSE bs[i].n + SumN(bs, i + 1)
 
@@ -152,7 +159,8 @@ EndNx(inp, s, e) == [s EXCEPT !.st = "Tail"]
 
 (* ------------------------------------------------------------------ Accept: coverage + boot-data length *)
 BdIv(s) == <<s.bd.at, s.bd.at + BdLen>>
-Required(inp, s) == {<<0, IvtLen>>, BdIv(s), AppIv(inp)} \cup s.cfg
+Structures(inp, s) == {<<0, IvtLen>>, BdIv(s), AppIv(inp)} \cup s.cfg
+Required(inp, s) == {<<0, IvtLen>>, BdIv(s), AppIv(inp)} \cup (IF Waived(inp, "cfgCoverage") THEN {} ELSE s.cfg)
 CsfDataLen(s) == IF s.refs = {} THEN s.csf.len ELSE SetMax({r[2] : r \in s.refs})
 NeedEnd(inp, s) ==
   IF inp.flags = "plain" THEN AppAt(inp) + inp.appLen
@@ -160,7 +168,7 @@ NeedEnd(inp, s) ==
   ELSE Max(s.csf.at + CsfDataLen(s), s.blob + BlobHdr + BlobOvh + inp.dekLen)
 AcceptOK(inp, s) ==
   /\ s.st = "Tail"
-  /\ Cardinality(Required(inp, s)) = 3 + Cardinality(s.cfg) /\ Disj(Required(inp, s))          \* structures do not overlap
+  /\ Cardinality(Structures(inp, s)) = 3 + Cardinality(s.cfg) /\ Disj(Structures(inp, s))    \* structures do not overlap
   /\ s.bd.len >= inp.ivtOff + NeedEnd(inp, s)                                                  \* everything the ROM needs is loaded
   /\ s.bd.len <= inp.ivtOff + s.fileLen + (IF inp.flags = "enc" THEN BlobSpan ELSE 0)          \* and nothing that does not exist
   /\ (inp.flags # "plain" =>
@@ -169,7 +177,7 @@ AcceptOK(inp, s) ==
         /\ \A r \in Required(inp, s) \ {AppIv(inp)} : Covered(r, s.signed))
   /\ (inp.flags = "auth" => s.macd = {} /\ s.blob = -1)
   /\ (inp.flags = "enc" => /\ Covered(AppIv(inp), s.macd) /\ s.blob >= s.csf.at + CsfDataLen(s)
-                           /\ \A r \in Required(inp, s) : ~Meets(r, <<s.blob, s.blob + BlobHdr + BlobOvh + inp.dekLen>>))
+                           /\ \A r \in Structures(inp, s) : ~Meets(r, <<s.blob, s.blob + BlobHdr + BlobOvh + inp.dekLen>>))
 AcceptNx(inp, s) == [s EXCEPT !.st = "Accepted"]
 
 (* ------------------------------------------------------------------ round trip: what SPSDK's own parser recovers *)
@@ -181,6 +189,6 @@ ParseBackOK(inp, s, e) ==
   /\ e.flags = FlagWord(inp.flags)
   /\ e.hasDcd = (inp.cfgKind = "dcd") /\ e.hasXmcd = (inp.cfgKind = "xmcd") /\ e.hasCsf = (inp.flags # "plain")
   /\ e.appAt = AppAt(inp) /\ e.nCmds = s.nCmds
-  /\ e.ivtEq /\ e.bdEq /\ e.cfgEq /\ e.appEq /\ e.csfEq /\ e.reexpEq
+  /\ e.ivtEq /\ e.bdEq /\ (e.cfgEq \/ Waived(inp, "xmcdMatch")) /\ e.appEq /\ e.csfEq /\ e.reexpEq
 ParseBackNx(inp, s, e) == [s EXCEPT !.st = "Done"]
 =============================================================================
